@@ -232,6 +232,8 @@ def run_op(ctx, label, fn):
 def wl_ops(ctx, idx, rng):
     clsname = gen.CLASS_NAMES[idx % 6]
     mem = ["C", "F", "strided", "neg", "offset"][(idx // 6) % 5]
+    if gen._side_rng(rng).random() < 0.15:
+        mem = "readonly"
     use_dask = (idx // 30) % 5 == 4
     n = int(gen.pick(rng, [1, 2, 5, 8, 16, 27]))
     nchan = None if clsname == "Signal" else int(gen.pick(rng, [1, 2, 4]))
@@ -365,7 +367,7 @@ def wl_helpers(ctx, idx, rng):
     real_in = name in ("rfft", "rfft2", "rfftn", "ihfft")
     dtype = gen.pick(rng, [np.float64, np.float32]) if real_in else gen.pick(rng, [np.complex128, np.complex64, np.complex128, np.float64])
     shape = tuple(int(v) for v in rng.integers(2, 9, size=int(rng.integers(2, 4))))
-    mem = gen.pick(rng, ["C", "F", "strided", "neg", "offset"])
+    mem = gen.pick(rng, ["C", "F", "strided", "neg", "offset", "readonly"])
     x, memkind = gen.layout(rng, gen.rand_data(rng, shape, dtype), mem)
     holder = gen.pick(rng, ["array", "array", "signal", "dask"])
     if holder == "array" and rng.random() < 0.2:
